@@ -219,11 +219,19 @@ type hookEvt struct {
 // goroutines held at the hook points.
 func (g *gen) runHooked(root string, writers []wspec, sched []sev) (points []int, tmps map[int]string, reads []readObs, midflight bool, finish func()) {
 	e := g.e
+	// one long-lived FileCache instance for all reads of the case, a separate instance per
+	// writer (as separate processes would have): state kept inside an instance must not matter
 	fc, err := crl.NewFileCache(root)
 	if err != nil {
 		panic(err)
 	}
 	n := len(writers)
+	fcW := make([]*crl.FileCache, n)
+	for k := range fcW {
+		if fcW[k], err = crl.NewFileCache(root); err != nil {
+			panic(err)
+		}
+	}
 	evt := make(chan hookEvt, 16)
 	gos := make([]chan struct{}, n)
 	state := make([]int, n) // 0 not started, 1 held at a hook point, 2 finished
@@ -275,7 +283,7 @@ func (g *gen) runHooked(root string, writers []wspec, sched []sev) (points []int
 			go func(i int) {
 				defer wg.Done()
 				<-gos[i]
-				err := fc.Set(context.Background(), writers[i].URL, writers[i].Bundle.B)
+				err := fcW[i].Set(context.Background(), writers[i].URL, writers[i].Bundle.B)
 				evt <- hookEvt{finished: true, err: err}
 			}(i)
 		}
@@ -447,6 +455,42 @@ func (g *gen) hookSchedules() {
 				}
 			}
 			g.hookCase("hook-overlap", []wspec{{u0, b0}, {u0, b1}}, insertReads(ws, []int{pA - 1, pA, len(ws)}, []string{u0, u0, u0}))
+		}
+	}
+	// histories on ONE long-lived reader instance, nothing overlapping: Set A, Get, Set B, Get,
+	// Set C abandoned after k steps (k = 4: complete), Get; every Get must follow the latest
+	// returned Set of its URL (the verdict changes between calls)
+	for k := 0; k <= 4; k++ {
+		for _, sameURL := range []bool{true, false} {
+			for _, firstMiss := range []bool{false, true} {
+				r := rng.Fork(uint64(g.id))
+				perm := []int{0, 1, 2, 3, 4}
+				Shuffle(r, perm)
+				ub := u0
+				if !sameURL {
+					ub = u1
+				}
+				wr := []wspec{{u0, e.small[perm[0]]}, {ub, e.small[perm[1]]}, {u0, e.small[perm[2]]}}
+				var sc []sev
+				rd := 0
+				read := func(u string) { sc = append(sc, sev{Kind: "R", Idx: rd, URL: u}); rd++ }
+				steps := func(w, n int) {
+					for j := 0; j < n; j++ {
+						sc = append(sc, sev{Kind: "W", Idx: w})
+					}
+				}
+				if firstMiss {
+					read(u0)
+				}
+				steps(0, 4)
+				read(u0)
+				steps(1, 4)
+				read(u0)
+				read(u1)
+				steps(2, k)
+				read(u0)
+				g.hookCase("hook-history", wr, sc)
+			}
 		}
 	}
 	// truncated schedules: writers abandoned at every hook point (a crash of a thread of the process)
